@@ -2,10 +2,12 @@
 """regenerates MANIFEST.json from harness/registry/*.json and tools/na.json"""
 import json, os
 V = os.path.dirname(os.path.dirname(os.path.abspath(__file__)))
-reg = {}
-for f in sorted(os.listdir(os.path.join(V, "harness", "registry"))):
-    if f.endswith(".json"):
-        reg.update(json.load(open(os.path.join(V, "harness", "registry", f))))
+import importlib.machinery, importlib.util
+_l = importlib.machinery.SourceFileLoader("vcheck", os.path.join(V, "check"))
+_spec = importlib.util.spec_from_loader("vcheck", _l)
+_m = importlib.util.module_from_spec(_spec)
+_l.exec_module(_m)
+reg = _m.load_registry()
 ids = [json.loads(l)["id"] for l in open(os.path.join(V, "properties.jsonl"))]
 na = json.load(open(os.path.join(V, "tools", "na.json")))
 checks = []
